@@ -427,8 +427,11 @@ def search(chk: core.Check) -> None:
 
 def main(chk: core.Check) -> int:
     chk.rule = RULE
+    from verif.props import c02_gen
+    c02_gen.regenerate(chk, c02_gen.C04_FUNCS)   # T-tell: Study._pop_waiting_trial_id as statement IR (Generated/TellMethods.lean)
     if not getattr(chk, "no_prove", False):
-        chk.prove()
+        chk.prove(["OptunaVerif.Props.C04", c02_gen.MODULE_C04])
+        c02_gen.explain_proof_failure(chk, c02_gen.MODULE_C04)
     quick = chk.tier == "quick"
     explore(chk, ["mem", "journal-symlink", "journal-open"], 120 if quick else 2500, True)
     explore(chk, ["rdb", "cached", "grpc(mem)", "grpc(rdb)", "grpc(journal)"], 16 if quick else 400, False, tag="-free")
